@@ -2,6 +2,7 @@
    Only property theorems here; each closed by `exact` of a lemma from Proofs/. *)
 From Flyt Require Import Base Script FlowTable Engine EngineCorr EngineFacts SpecEngine
      C02Proofs EngineSpecProofs.
+From Flyt Require Import C02Glue.
 
 (* The retry loop of Run (flyt.go:719-738) with budget N >= 1, for every oracle, node kind,
    wait and prep value: if nothing cancels the context, the exec events it appends number
@@ -46,7 +47,7 @@ Print Assumptions C02_copies_agree.
 (* a node that does not expose retry settings gets the budget 1 *)
 Theorem C02_no_retry_iface :
   forall c, u_retry c = None -> retry_of c = (1, 0).
-Proof. intros c H. unfold retry_of. now rewrite H. Qed.
+Proof. exact C02_no_retry_iface_glue. Qed.
 Print Assumptions C02_no_retry_iface.
 
 (* the lifecycle monitor (which admits attempt k+1 only after k failures and k+1 <= N, the
